@@ -294,6 +294,7 @@ struct World
     Model m;
     int   perm = 0;
     std::vector< Event > events;
+    bool  all_big_prepare_offsets = false;      // thorough: Prepare Write with all seven offsets >= 255, quick: 256, 256+n-1, 0xFF00
     std::uint8_t decl_T[ 8 ], decl_N[ 8 ];      // content of the declaration attributes (captured at start up)
     std::size_t  decl_T_n = 0, decl_N_n = 0;
 
@@ -359,7 +360,7 @@ struct World
             for ( int l : pl ) if ( l <= maxp ) add( E_PREPARE, o, l, o & 1, mc::fmt( "PrepareWrite(value, offset %d, %d octets, pattern %d)", o, l, o & 1 ) );
         }
         for ( int o : big )
-            if ( std::find( offs.begin(), offs.end(), o ) == offs.end() )
+            if ( std::find( offs.begin(), offs.end(), o ) == offs.end() && ( all_big_prepare_offsets || o == 256 || o == 256 + n - 1 || o == 0xFF00 ) )
             {
                 add( E_PREPARE, o, 1, o & 1, mc::fmt( "PrepareWrite(value, offset %d, 1 octets, pattern %d)", o, o & 1 ) );
                 if ( n - o >= 2 && n - o <= maxp ) add( E_PREPARE, o, n - o, o & 1, mc::fmt( "PrepareWrite(value, offset %d, %d octets, pattern %d)", o, n - o, o & 1 ) );
@@ -745,7 +746,7 @@ void run_config_mtu( const Ops& ops, int K, int P, const std::string& name, cons
     ++configs_matched;
     if ( a.expired() && a.replay.empty() ) { total.exhaustive = false; total.notes[ "cut" ] += name + " not started (deadline); "; return; }
     if ( ops.srv_size > sizeof srv_raw || ops.con_size > sizeof con_raw || arena_size() > ARENA_MAX ) { fprintf( stderr, "C06 harness: static storage too small\n" ); exit( 2 ); }
-    w.ops = ops; w.m = make_model( K, P, name ); w.perm = P; w.buffers();
+    w.ops = ops; w.m = make_model( K, P, name ); w.perm = P; w.buffers(); w.all_big_prepare_offsets = a.thorough();
 
     if ( !a.replay.empty() )
     {
@@ -754,9 +755,10 @@ void run_config_mtu( const Ops& ops, int K, int P, const std::string& name, cons
         w.static_checks( rep, only_static );
         if ( only_static ) { if ( rep.violations.count( rf.sig ) ) { printf( "REPRODUCED %s\n", rf.sig.c_str() ); rc |= 1; } else printf( "not reproduced\n" ); return; }
         // the alphabet the trace was recorded with: try the boundary alphabet first, the texts have to match
-        for ( int full = 0; full != 2; ++full )
+        for ( int variant = 0; variant != 4; ++variant )
         {
-            w.build_events( full != 0 );
+            w.all_big_prepare_offsets = ( variant & 2 ) != 0;
+            w.build_events( ( variant & 1 ) != 0 );
             bool match = true;
             for ( auto& s : rf.steps ) { const int ev = atoi( s.c_str() ); if ( ev < 0 || ev >= w.num_events() || s.find( w.describe( ev ) ) == std::string::npos ) match = false; }
             if ( match ) break;
